@@ -25,7 +25,9 @@ for q in [a for a in sys.argv[1:] if not a.startswith('-')]:
     nbad = sum(1 for d in names.values() if d['bad'])
     print(f"== {q}: paths={r.paths} cut={r.cut_paths} obligations={len(names)} failing={nbad} solver={r.solver_ms/1000:.2f}s wall={r.wall_s:.2f}s")
     for u in r.undecided[:6]: print("   UNDECIDED", u[:300])
-    for e in r.errors[:3]: print("   ERROR", e[:1500])
+    for k_, v_ in sorted(r.covers.items()):
+        if k_.endswith(".continues") and not v_: print("   NOCONTINUE", k_)
+    for e in r.errors[:1]: print("   ERROR", e[:300], "...", e[-900:])
     for n, d in names.items():
         if d['bad']:
             print(f"   FAIL {n} ({len(d['bad'])} distinct)")
